@@ -85,6 +85,7 @@ func cmdStress(args []string) {
 	}
 
 	rec := &stressRec{}
+	var stuck atomic.Bool
 	var yieldOn atomic.Bool
 	var yieldSeed int64 = *seed
 	var ymu sync.Mutex
@@ -157,6 +158,10 @@ func cmdStress(args []string) {
 		}
 
 		call := func(m *member, kind string, d int, f func(ctx context.Context) error) bool {
+			if stuck.Load() {
+				// a request did not return: the server is blocked, nothing more can be learned from this run
+				return false
+			}
 			cctx, cancel := context.WithTimeout(ctx, 30*gotime.Second)
 			defer cancel()
 			t0 := gotime.Now()
@@ -168,6 +173,7 @@ func cmdStress(args []string) {
 			case err = <-done:
 			case <-gotime.After(40 * gotime.Second):
 				timeout, err = true, fmt.Errorf("no return within 40s")
+				stuck.Store(true)
 			}
 			e := ""
 			if err != nil {
@@ -286,7 +292,17 @@ func cmdStress(args []string) {
 					return
 				case <-gotime.After(3 * gotime.Millisecond):
 				}
-				_ = srv.Y.CompactDocument(ctx, docKeys[i%*nDocs], false)
+				// (a compaction that waits for the document lock for ever is the other half of a deadlock)
+				cdone := make(chan struct{})
+				k := docKeys[i%*nDocs]
+				go func() { _ = srv.Y.CompactDocument(ctx, k, false); close(cdone) }()
+				select {
+				case <-cdone:
+				case <-gotime.After(45 * gotime.Second):
+					rec.add(map[string]any{"ev": "call", "c": "bg", "d": i % *nDocs, "kind": "compact", "ok": false, "err": "no return within 45s", "timeout": true, "ms": 45000})
+					stuck.Store(true)
+					return
+				}
 			}
 		}()
 		close(start)
@@ -295,6 +311,20 @@ func cmdStress(args []string) {
 		bg.Wait()
 		yieldOn.Store(false)
 
+		if stuck.Load() {
+			// flush what was recorded and leave: the blocked server cannot be shut down gracefully
+			rec.add(map[string]any{"ev": "end", "run": run})
+			rec.mu.Lock()
+			evs := rec.evs
+			rec.mu.Unlock()
+			sort.Slice(evs, func(i, j int) bool { return evs[i]["seq"].(int64) < evs[j]["seq"].(int64) })
+			for _, e := range evs {
+				normStress(e)
+				t.Emit(e)
+			}
+			_ = t.Close()
+			os.Exit(0)
+		}
 		// ---- quiescent rounds
 		for round := 0; round < 3; round++ {
 			for _, m := range members {
